@@ -372,10 +372,10 @@ Qed.
 Lemma lookup_val_match : forall pt url id,
   l_val (plookup pt url) = Some id -> l_match (plookup pt url) = true.
 Proof.
-  intros pt url id H. unfold plookup, lookup, lookup_parts in *.
-  destruct (l_match (walk (pt_tree pt) [] (split_url url) None [] [])) eqn:E;
+  intros pt url id H. unfold plookup, lookup, lookup_parts, lookup_parts_v in *.
+  destruct (l_match (walk_v true (pt_tree pt) [] (split_url url) None [] [])) eqn:E;
     [reflexivity|].
-  rewrite (walk_no_match _ _ _ _ _ _ E) in H. discriminate.
+  rewrite (walk_no_match _ _ _ _ _ _ _ E) in H. discriminate.
 Qed.
 
 Lemma has_value_iff : forall ds pt X,
@@ -389,16 +389,16 @@ Proof.
   - split; auto.
 Qed.
 
-(* every declaration of the selected node matches the request, spells the
-   normalised URL and determines the path parameters *)
+(* every declaration of the selected node matches the request (kind-aware:
+   a wildcard stands for nothing or for a rest starting with a part of its own
+   kind), spells the normalised URL and determines the path parameters *)
 Lemma selected_node : forall ds pt url d,
   Inv ds pt ->
   l_match (plookup pt url) = true ->
   In d ds -> dkey d = l_key (plookup pt url) ->
-  matches (pat d) (split_url url) = true /\
+  matches_kind (pat d) (split_url url) = true /\
   l_norm (plookup pt url) = render_pattern (pat d) /\
-  (Forall (fun u => is_brace (snd u) = false) (split_url url) ->
-   l_params (plookup pt url) = params_at (pat d) (split_url url) []).
+  l_params (plookup pt url) = params_at_nb (pat d) (split_url url) [].
 Proof.
   intros ds pt url d HI HM Hd Hk.
   unfold plookup, lookup in *. set (parts := split_url url) in *.
@@ -409,15 +409,15 @@ Proof.
   assert (Hnorm : l_norm r = render_pattern (pat d)).
   { rewrite HN, <- Hk. unfold dkey, key_of. rewrite (path_of_render _ _ _ HA).
     reflexivity. }
-  destruct HR as [(HF & _ & HP)|(P & rP & pre & HW & HF & Hrall & _ & HP)].
+  destruct HR as [(HF & _ & HP)|(P & rP & pre & HW & HF & Hrall & _ & HP & HKind)].
   - rewrite <- Hk in HF, HP. unfold dkey, key_of in HF, HP.
     assert (HL : length parts = length (pat d)).
     { apply follows_length in HF. rewrite key_from_length, rev_length in HF. cbn [length] in HF. lia. }
     split; [|split; [exact Hnorm|]].
-    + pose proof (follows_matches (pat d) t [] [] parts [] [] HA HL) as H.
-      rewrite !app_nil_r in H. apply H; auto.
-    + intro HB. rewrite HP.
-      pose proof (params_along_at (pat d) t [] [] parts HA HL) as H.
+    + pose proof (follows_matches_kind (pat d) t [] [] parts [] [] HA HL) as H.
+      rewrite !app_nil_r in H. apply H; auto. left. split; reflexivity.
+    + rewrite HP.
+      pose proof (params_along_at_nb (pat d) t [] [] parts HA HL) as H.
       rewrite app_nil_r in H. apply H; auto.
       eapply (follows_wild_free (pat d) t [] [] parts HL).
       rewrite app_nil_r. exact HF.
@@ -426,6 +426,12 @@ Proof.
     assert (Hparts : parts = rev rP ++ rev pre).
     { rewrite <- (rev_involutive parts), Hrall, rev_app_distr. reflexivity. }
     rewrite Hp in HA. pose proof (agrees_app_l _ _ _ _ HA) as HA0.
+    (* the wildcard node carries the kind the pattern writes *)
+    assert (Hwk : node_host t (l_key r) = k).
+    { pose proof (agrees_app_r _ _ _ _ HA) as HAw.
+      apply agrees_cons in HAw. destruct HAw as [(ni & F & Hh & _) _].
+      cbn [skey_of] in F. fold (key_of p0) in F. rewrite HP0 in F.
+      rewrite <- Hk. unfold dkey. rewrite HW. unfold node_host. rewrite F. exact Hh. }
     rewrite <- HP0 in HF, HP. unfold key_of in HF, HP.
     assert (HL : length (rev rP) = length p0).
     { apply follows_length in HF. rewrite key_from_length in HF.
@@ -434,14 +440,19 @@ Proof.
     { rewrite rev_involutive, app_nil_r. exact HF. }
     split; [|split; [exact Hnorm|]].
     + rewrite Hp, Hparts.
-      apply (follows_matches p0 t [] [] (rev rP) [(k, PWild)] (rev pre) HA0 HL HF').
-      right. exists k. reflexivity.
-    + intro HB. rewrite HP, Hp, Hparts.
-      rewrite (params_at_app_wild p0 (rev rP) k (rev pre) [] HL).
-      pose proof (params_along_at p0 t [] [] (rev rP) HA0 HL) as H.
+      apply (follows_matches_kind p0 t [] [] (rev rP) [(k, PWild)] (rev pre) HA0 HL HF').
+      right. exists k. split; [reflexivity|].
+      destruct (rev pre) as [|[kx sx] rest'] eqn:ER; [left; reflexivity|].
+      right. exists sx, rest'.
+      assert (Hpre : pre = rev rest' ++ [(kx, sx)]).
+      { rewrite <- (rev_involutive pre), ER. reflexivity. }
+      pose proof (HKind eq_refl _ _ Hpre) as HX. cbn [fst] in HX.
+      rewrite Hwk in HX. subst kx. reflexivity.
+    + rewrite HP, Hp, Hparts.
+      rewrite (params_at_nb_app_wild p0 (rev rP) k (rev pre) [] HL).
+      pose proof (params_along_at_nb p0 t [] [] (rev rP) HA0 HL) as H.
       rewrite rev_involutive, app_nil_r in H. apply H.
-      * eapply (follows_wild_free p0 t [] [] (rev rP) HL). exact HF'.
-      * rewrite Hparts in HB. apply Forall_app in HB. apply HB.
+      eapply (follows_wild_free p0 t [] [] (rev rP) HL). exact HF'.
 Qed.
 
 (* the policy entry the dispatcher reads is the merge of the declarations of
@@ -488,7 +499,7 @@ Qed.
 Lemma sound_remedies : forall ds pt m url r,
   Inv ds pt -> In r (endpoint_remedies pt m url) ->
   exists d, In d ds /\ d_method d = m /\ In r (d_rem d) /\ r_enabled r = true /\
-            matches (pat d) (split_url url) = true.
+            matches_kind (pat d) (split_url url) = true.
 Proof.
   intros ds pt m url r HI Hr. unfold endpoint_remedies in Hr.
   rewrite (policy_for_merged ds pt m url HI) in Hr.
@@ -503,7 +514,7 @@ Qed.
 Lemma sound_diagnoses : forall ds pt m url g,
   Inv ds pt -> In g (endpoint_diagnoses pt m url) ->
   exists d, In d ds /\ d_method d = m /\ In g (d_diag d) /\ g_enabled g = true /\
-            matches (pat d) (split_url url) = true.
+            matches_kind (pat d) (split_url url) = true.
 Proof.
   intros ds pt m url g HI Hg. unfold endpoint_diagnoses in Hg.
   rewrite (policy_for_merged ds pt m url HI) in Hg.
@@ -597,7 +608,7 @@ Proof.
   intros ds ds' pt pt' m url HI HI' HP.
   pose proof (inv_tree_equiv _ _ _ _ HI HI' HP) as HE.
   assert (HS : same_hit (plookup pt url) (plookup pt' url)).
-  { unfold plookup, lookup, lookup_parts. apply walk_equiv. exact HE. }
+  { unfold plookup, lookup, lookup_parts, lookup_parts_v. apply walk_equiv. exact HE. }
   split; [exact HS|].
   destruct HS as (HM & HK & _ & _).
   rewrite !endpoint_remedies_acc, !endpoint_diagnoses_acc.
@@ -696,7 +707,8 @@ Lemma exact_wins : forall ds pt url d,
   unshadowedb ds [] (pat d) (split_url url) = true ->
   l_match (plookup pt url) = true /\ l_key (plookup pt url) = dkey d.
 Proof.
-  intros ds pt url d HI Hd HW HM HU. unfold plookup, lookup, lookup_parts, dkey, key_of.
+  intros ds pt url d HI Hd HW HM HU.
+  unfold plookup, lookup, lookup_parts, lookup_parts_v, dkey, key_of.
   apply walk_exact; auto.
   - apply (inv_B _ _ HI d Hd).
   - apply wild_freeb_spec. exact HW.
@@ -712,10 +724,9 @@ Qed.
 Lemma selected_declared : forall ds pt url id,
   Inv ds pt -> l_val (plookup pt url) = Some id ->
   exists d, In d ds /\ dkey d = l_key (plookup pt url) /\
-    matches (pat d) (split_url url) = true /\
+    matches_kind (pat d) (split_url url) = true /\
     l_norm (plookup pt url) = render_pattern (pat d) /\
-    (Forall (fun u => is_brace (snd u) = false) (split_url url) ->
-     l_params (plookup pt url) = params_at (pat d) (split_url url) []).
+    l_params (plookup pt url) = params_at_nb (pat d) (split_url url) [].
 Proof.
   intros ds pt url id HI HV.
   pose proof (lookup_val_match _ _ _ HV) as HM.
@@ -800,4 +811,139 @@ Proof.
   { apply perm_short_eq; [apply perm_filter; exact HP|].
     apply distinct_filter_short. exact HD. }
   rewrite HF. split; reflexivity.
+Qed.
+
+(* ------------------------------------------------------------------ *)
+(* global specificity *)
+
+(* every node a lookup of the policy tree can return is a declared one:
+   a match always reports a value *)
+Lemma matched_has_value : forall ds pt url,
+  Inv ds pt -> l_match (plookup pt url) = true -> l_val (plookup pt url) <> None.
+Proof.
+  intros ds pt url HI HM. unfold plookup, lookup in *.
+  set (t := pt_tree pt) in *. set (parts := split_url url) in *.
+  pose proof (lookup_parts_spec t parts HM) as (HV & _ & HR). rewrite HV.
+  destruct HR as [(_ & HN & _)|(P & rP & pre & HW & _ & _ & HF & _)]; [exact HN|].
+  set (X := l_key (lookup_parts t parts)) in *.
+  destruct (find_node X t) as [ni|] eqn:F; [|contradiction].
+  destruct (inv_A _ _ HI X ni F) as (d & k & ps & Hd & Hv).
+  unfold visited in Hv.
+  destruct (step_at_head _ _ _ _ _ Hv) as [K1 HX]. rewrite HW in HX.
+  injection HX as Hs _. symmetry in Hs. apply skey_wild_inv in Hs. subst ps.
+  pose proof (validate_wild_last _ [] X k (inv_V _ _ HI d Hd) Hv) as HXd.
+  intro HN. apply (proj1 (has_value_iff ds pt X HI) HN d Hd). symmetry. exact HXd.
+Qed.
+
+Lemma unshadowed_in_b : forall ds pt p K us,
+  Inv ds pt -> unshadowed_in (pt_tree pt) K p us -> unshadowedb ds K p us = true.
+Proof.
+  intros ds pt. induction p as [|[k ps] p' IH]; intros K us HI HU; [reflexivity|].
+  destruct us as [|[ku u] us']; [reflexivity|]. cbn [unshadowedb unshadowed_in] in *.
+  destruct HU as [HU0 HU]. apply andb_true_iff. split; [|apply IH; auto].
+  destruct ps as [c|nm|]; try reflexivity.
+  apply negb_true_iff. destruct (reaches ds (KConst u :: K) ku) eqn:ER; [|reflexivity].
+  exfalso. unfold reaches in ER. apply existsb_exists in ER.
+  destruct ER as (d & Hd & Hs).
+  destruct (step_at [] (pat d) (KConst u :: K)) as [[k' ps']|] eqn:ES; [|discriminate].
+  apply eqb_prop in Hs. subst k'.
+  destruct (inv_B _ _ HI d Hd _ _ _ ES) as (ni & F & Hh & _).
+  rewrite (child_ok_intro _ _ _ _ F Hh) in HU0. discriminate.
+Qed.
+
+Lemma key_of_app_wild : forall p0 k, key_of (p0 ++ [(k, PWild)]) = KWild :: key_of p0.
+Proof.
+  intros. unfold key_of, key_from. rewrite !app_nil_r, map_app, rev_app_distr.
+  reflexivity.
+Qed.
+
+(* the selected declared pattern is itself on the descent: no literal sibling
+   shadows any of its parameter steps *)
+Lemma selected_unshadowed : forall ds pt url d,
+  Inv ds pt -> l_match (plookup pt url) = true ->
+  In d ds -> dkey d = l_key (plookup pt url) ->
+  unshadowedb ds [] (pat d) (split_url url) = true.
+Proof.
+  intros ds pt url d HI HM Hd Hk.
+  unfold plookup, lookup in *. set (parts := split_url url) in *.
+  set (t := pt_tree pt) in *.
+  pose proof (lookup_parts_spec t parts HM) as (_ & _ & HR).
+  set (r := lookup_parts t parts) in *.
+  apply (unshadowed_in_b ds pt _ _ _ HI). fold t.
+  destruct HR as [(HF & _ & _)|(P & rP & pre & HW & HF & Hrall & _)].
+  - rewrite <- Hk in HF. unfold dkey, key_of in HF.
+    assert (HL : length parts = length (pat d)).
+    { apply follows_length in HF. rewrite key_from_length, rev_length in HF. cbn [length] in HF. lia. }
+    apply (follows_unshadowed (pat d) t [] [] parts HL). rewrite app_nil_r. exact HF.
+  - rewrite <- Hk in HW. unfold dkey in HW.
+    destruct (key_of_wild_inv _ _ HW) as (p0 & k & Hp & HP0).
+    assert (Hparts : parts = rev rP ++ rev pre).
+    { rewrite <- (rev_involutive parts), Hrall, rev_app_distr. reflexivity. }
+    rewrite <- HP0 in HF. unfold key_of in HF.
+    assert (HL : length (rev rP) = length p0).
+    { apply follows_length in HF. rewrite key_from_length in HF.
+      rewrite rev_length. cbn [length] in HF. lia. }
+    rewrite Hp, Hparts. apply unshadowed_in_app_wild; [exact HL|].
+    apply (follows_unshadowed p0 t [] [] (rev rP) HL).
+    rewrite rev_involutive, app_nil_r. exact HF.
+Qed.
+
+(* a declared pattern that matches the request and that no literal sibling
+   shadows bounds the selection from below, and makes the lookup succeed
+   unless the request has a part spelled "{..}" *)
+Lemma reachable_below : forall ds pt url d',
+  Inv ds pt -> In d' ds ->
+  matches_kind (pat d') (split_url url) = true ->
+  unshadowedb ds [] (pat d') (split_url url) = true ->
+  (l_match (plookup pt url) = true ->
+   spec_leb (steps_of (pat d')) (rev (l_key (plookup pt url))) = true) /\
+  (no_brace (split_url url) -> l_match (plookup pt url) = true).
+Proof.
+  intros ds pt url d' HI Hd HMk HU.
+  unfold plookup, lookup in *. set (parts := split_url url) in *.
+  set (t := pt_tree pt) in *.
+  pose proof (inv_B _ _ HI d' Hd) as HA. fold t in HA.
+  pose proof (unshadowedb_spec ds pt _ _ _ HI HU) as HUi. fold t in HUi.
+  destruct (matches_kind_shape _ _ HMk)
+    as [[HW HL]|(p0 & k & us0 & rest & Hp & HW & Hus & HL & HM0 & HR)].
+  - (* wildcard-free: it is the node selected *)
+    assert (HE : l_match (lookup_parts t parts) = true /\
+                 l_key (lookup_parts t parts) = dkey d').
+    { unfold lookup_parts, lookup_parts_v, dkey, key_of. apply walk_exact; auto.
+      - apply matches_kind_matches. exact HMk.
+      - intro HN.
+        pose proof (proj1 (has_value_iff ds pt (key_from [] (pat d')) HI) HN) as HN'.
+        apply (HN' d' Hd). reflexivity. }
+    destruct HE as [HE1 HE2]. split; [|intros _; exact HE1].
+    intros _. rewrite HE2. unfold dkey. rewrite steps_of_key. apply spec_leb_refl.
+  - (* p0 followed by the wildcard *)
+    rewrite Hp in HA, HUi. rewrite Hus in HUi.
+    pose proof (agrees_app_l _ _ _ _ HA) as HA0.
+    pose proof (unshadowed_in_prefix _ _ _ _ _ _ HL HUi) as HU0.
+    destruct (walk_prefix p0 true t [] us0 rest None [] [] HA0 HW HL HM0 HU0)
+      as (fw' & ps' & path' & HWalk).
+    assert (HNode : exists wi, find_node (KWild :: key_from [] p0) t = Some wi /\ n_host wi = k).
+    { pose proof (agrees_app_r _ _ _ _ HA) as HAw.
+      apply agrees_cons in HAw. destruct HAw as [(ni & F & Hh & _) _].
+      exists ni. split; assumption. }
+    destruct (walk_from_wild_parent rest true t (key_from [] p0) fw' ps' path' k HNode HR)
+      as [HB1 HB2].
+    assert (Hlp : lookup_parts t parts = walk_v true t (key_from [] p0) rest fw' ps' path').
+    { unfold lookup_parts, lookup_parts_v. fold parts. rewrite Hus. exact HWalk. }
+    split.
+    + intro HMt. pose proof (lookup_parts_spec t parts HMt) as HRes.
+      apply walk_result_key_shape in HRes.
+      rewrite Hlp in HMt. destruct (HB1 HMt) as [A HA']. rewrite <- Hlp in HA'.
+      rewrite Hp, <- steps_of_key, key_of_app_wild.
+      apply (spec_leb_below _ _ A HA' HRes).
+    + intro HNB. rewrite Hlp. apply HB2.
+      unfold no_brace in *. rewrite Hus in HNB. apply Forall_app in HNB. apply HNB.
+Qed.
+
+Lemma no_braceb_spec : forall us, no_braceb us = true <-> no_brace us.
+Proof.
+  intro us. unfold no_braceb, no_brace. rewrite forallb_forall, Forall_forall.
+  split; intros H x Hx; specialize (H x Hx).
+  - apply negb_true_iff in H. exact H.
+  - apply negb_true_iff. exact H.
 Qed.
